@@ -528,6 +528,15 @@ func (xd *Extension) lazyInit() *ExtensionL2 {
 	return xd.L2
 }
 
+// EnforceUTF8 is a pseudo-internal API to determine whether to enforce UTF-8
+// validation for the string extension field (see [Field.EnforceUTF8]).
+//
+// WARNING: This method is exempt from the compatibility promise and may be
+// removed in the future without warning.
+func (xd *Extension) EnforceUTF8() bool {
+	return xd.L1.EditionFeatures.IsUTF8Validated
+}
+
 type (
 	Service struct {
 		Base
